@@ -763,12 +763,15 @@ where
         },
         SpawnSpec::Build { mailbox, strategy, timeout, fail_on_timeout, owning } => {
             let mut b = hannibal::build(probe);
-            // both call orders of the builder are legal: even timeouts are configured before the channel
-            // is chosen, odd ones afterwards
-            let early = timeout.filter(|t| t % 2 == 0);
-            let late = timeout.filter(|t| t % 2 == 1);
-            if let Some(t) = early {
-                b = b.timeout(Duration::from_millis(t as u64)).fail_on_timeout(*fail_on_timeout);
+            // every call order of the builder is legal: t % 4 = 0: timeout, fail flag, channel;
+            // 1: channel, timeout, fail flag; 2: fail flag, timeout, channel; 3: fail flag, channel, timeout
+            let order = timeout.map(|t| t % 4);
+            let dur = |t: u32| Duration::from_millis(t as u64);
+            match (order, timeout) {
+                (Some(0), Some(t)) => b = b.timeout(dur(*t)).fail_on_timeout(*fail_on_timeout),
+                (Some(2), Some(t)) => b = b.fail_on_timeout(*fail_on_timeout).timeout(dur(*t)),
+                (Some(3), Some(_)) => b = b.fail_on_timeout(*fail_on_timeout),
+                _ => {}
             }
             if timeout.is_none() && *fail_on_timeout {
                 // fail_on_timeout without any timeout: nothing can ever time out
@@ -778,8 +781,10 @@ where
                 Mailbox::Unbounded => b.unbounded(),
                 Mailbox::Bounded(n) => b.bounded(*n as usize),
             };
-            if let Some(t) = late {
-                b = b.timeout(Duration::from_millis(t as u64)).fail_on_timeout(*fail_on_timeout);
+            match (order, timeout) {
+                (Some(1), Some(t)) => b = b.timeout(dur(*t)).fail_on_timeout(*fail_on_timeout),
+                (Some(3), Some(t)) => b = b.timeout(dur(*t)),
+                _ => {}
             }
             match (strategy, owning) {
                 (RStrat::Default, false) => a(b.spawn()),
@@ -790,24 +795,66 @@ where
                 (RStrat::NonRestartable, true) => o(b.non_restartable().spawn_owning()),
             }
         }
-        SpawnSpec::Stream { builder, owning } => {
+        SpawnSpec::Stream { builder, owning, timeout } => {
             let stream = crate::interp::new_stream_for(actor);
+            // the base builder with an (ineffective) timeout configuration, if any
+            let base = |probe: Probe<K>| {
+                let b = hannibal::build(probe);
+                match timeout {
+                    Some((t, f)) if t % 2 == 0 => b.timeout(Duration::from_millis(*t as u64)).fail_on_timeout(*f),
+                    Some((t, f)) => b.fail_on_timeout(*f).timeout(Duration::from_millis(*t as u64)),
+                    None => b,
+                }
+            };
             match (builder, owning) {
                 (None, false) => a(probe.spawn_on_stream(stream).expect("spawn_on_stream")),
                 (None, true) => o(probe.spawn_owning_on_stream(stream).expect("spawn_owning_on_stream")),
-                (Some(Mailbox::Unbounded), false) => a(hannibal::build(probe).on_stream(stream).spawn()),
-                (Some(Mailbox::Unbounded), true) => o(hannibal::build(probe).on_stream(stream).spawn_owning()),
-                (Some(Mailbox::Bounded(n)), false) => {
-                    a(hannibal::build(probe).bounded_on_stream(*n as usize, stream).spawn())
-                }
-                (Some(Mailbox::Bounded(n)), true) => {
-                    o(hannibal::build(probe).bounded_on_stream(*n as usize, stream).spawn_owning())
-                }
+                // two routes to an unbounded stream actor: on_stream, or unbounded().non_restartable().with_stream
+                (Some(Mailbox::Unbounded), false) if actor % 2 == 1 => a(base(probe).unbounded().non_restartable().with_stream(stream).spawn()),
+                (Some(Mailbox::Unbounded), false) => a(base(probe).on_stream(stream).spawn()),
+                (Some(Mailbox::Unbounded), true) => o(base(probe).on_stream(stream).spawn_owning()),
+                (Some(Mailbox::Bounded(n)), false) => a(base(probe).bounded_on_stream(*n as usize, stream).spawn()),
+                (Some(Mailbox::Bounded(n)), true) if *n % 2 == 1 => o(base(probe).bounded(*n as usize).non_restartable().with_stream(stream).spawn_owning()),
+                (Some(Mailbox::Bounded(n)), true) => o(base(probe).bounded_on_stream(*n as usize, stream).spawn_owning()),
             }
         }
     };
     with_case(|c| c.sim.clear_announce());
     out
+}
+
+/// tags the actor task that the wrapped future spawns during its first poll
+pub struct Announced<F> {
+    f: std::pin::Pin<Box<F>>,
+    tag: Option<TaskTag>,
+}
+impl<F: std::future::Future> std::future::Future for Announced<F> {
+    type Output = F::Output;
+    fn poll(mut self: std::pin::Pin<&mut Self>, cx: &mut std::task::Context<'_>) -> std::task::Poll<F::Output> {
+        if let Some(t) = self.tag.take() {
+            with_case(|c| c.sim.announce(t));
+            let r = self.f.as_mut().poll(cx);
+            with_case(|c| c.sim.clear_announce());
+            r
+        } else {
+            self.f.as_mut().poll(cx)
+        }
+    }
+}
+
+/// the builder's own `register()` terminal: spawns the actor and registers it in one call; when the
+/// registration is refused the only handle is dropped inside the library and the fresh actor ends
+pub async fn register_via_builder<const K: u8>(actor: ActorId, beh: Arc<Behavior>, mailbox: Mailbox) -> Result<(Addr<Probe<K>>, Option<Addr<Probe<K>>>), String>
+where
+    Probe<K>: Wrap,
+{
+    let probe = Probe::<K>::new(actor, beh, None);
+    let tag = Some(TaskTag::Actor(actor));
+    let r = match mailbox {
+        Mailbox::Unbounded => Announced { f: Box::pin(hannibal::build(probe).unbounded().register()), tag }.await,
+        Mailbox::Bounded(n) => Announced { f: Box::pin(hannibal::build(probe).bounded(n as usize).register()), tag }.await,
+    };
+    r.map_err(|e| format!("{e:?}"))
 }
 
 /// spawn a fresh (non-default-born) service instance for a client `Register` / `Replace` op
